@@ -329,3 +329,5 @@ def run(chk, F):
     chk.run_rule("C08.header-lengths", "the header records the serializer's lengths, the payload checksum and the caller's hash/sequence/tag; entry len = header + key + value", 7, header_lengths, F)
     chk.run_rule("C08.decode-bounds", "deserialize rejects a buffer only when strictly shorter than the recorded lengths; the test guards every slice", 3, decode_bounds, F)
     chk.run_rule("C08.size-limit", "a WriteZero io error becomes ErrorKind::BufferSizeLimit", 1, size_limit, F)
+    from rules import mustcall
+    mustcall.run_for(chk, F, "C08")
